@@ -10,8 +10,9 @@
 
     * a section of a type `NewSection` does not list (`knownSection`) whose 3-byte size is FFFFFF:
       the specification reads the 32-bit size, fiano clamps FFFFFF to the buffer;
-    * a volume whose extended header starts exactly 20 bytes before its end: the specification
-      accepts it, fiano (`ExtHeaderOffset < Length - 20`) ignores it and walks the header as files;
+    * (gone since round 3, wp-c02c: a volume whose extended header starts exactly 20 bytes before its
+      end — fiano ignored it, finding F-c02b-2; fixed in /repo eaa94dc, `<=`, and in Uefi/Parse.lean
+      `fvInfoOf`; the reader's rule "extended header inside the volume" now gives `fvHasExt` directly)
     * a nested (resizable) volume whose block map is not one entry with a power-of-two size: when
       such a volume grows, `Assemble` rewrites `Length` and `Blocks[0].Count` only (the source says:
       "Right now we assume there's only one block entry") and aligns with a bit trick;
@@ -45,7 +46,6 @@ def FilesRA : List File → Prop
   | f :: fs => FileRA f ∧ FilesRA fs
 def FvRA : Fv → Prop
   | .mk i _ files =>
-    (i.extHeaderOffset ≠ 0 → i.extHeaderOffset + 20 < i.length) ∧
     (i.resizable = true → ∃ b0 k, i.blocks = [b0] ∧ b0.size = 2 ^ k ∧ k < 32) ∧
     FilesRA files
 end
